@@ -8,7 +8,13 @@ reconnect time, after which the dialer must be dialling again."""
 from checks.life import run_life
 
 
+from checks.c10 import C14_EVENTS
+
+
 def concerns(sig, text):
+    if sig.startswith("life.trace:"):
+        ev = sig[len("life.trace:"):].split("-after-")[0]
+        return ev in C14_EVENTS or (ev == "p_remove" and "p_ev" in text)
     what = sig.rsplit(":", 1)[-1]
     return any(k in what for k in ("S_ev", "up", "lparked", "dparked")) or "watchdog" in sig
 
